@@ -18,7 +18,7 @@ class DfaMonitor(object):
         self.al = al
         self.cmap = []
         for s in al.sets:
-            cs = set(self.dfa.class_of[x] for x in s)
+            cs = set(self.dfa.class_of[min(x, 256)] for x in s)
             if len(cs) != 1:
                 raise AssertionError('alphabet does not refine the DFA classes')
             self.cmap.append(cs.pop())
